@@ -4,6 +4,7 @@ import InToto.Driver.Meta
 import InToto.Driver.Subst
 import InToto.Driver.Misc
 import InToto.Driver.Cert
+import InToto.Driver.Verify
 import InToto.Model.Glob
 import InToto.Spec.Glob
 
@@ -44,6 +45,9 @@ def handle (j : Json) : Json :=
   | some r => r
   | none =>
   match handleCert op a with
+  | some r => r
+  | none =>
+  match handleVerify op a with
   | some r => r
   | none => Json.mkObj [("error", Json.str ("unknown op " ++ op))]
 
